@@ -8,6 +8,7 @@ import (
 	"path/filepath"
 	"regexp"
 	"runtime"
+	"sort"
 	"strings"
 	"sync"
 	"sync/atomic"
@@ -88,7 +89,7 @@ type ecdsaKey = ecdsa.PrivateKey
 var raceLogPrefix = os.Getenv("C19_RACE_LOG")
 var raceSeen int64
 
-var raceFrame = regexp.MustCompile(`(?m)^  ([^\s(]+)\(`)
+var raceFrame = regexp.MustCompile(`(?m)^  (\S+)\(\)$`)
 
 // raceReport returns a signature + text when the race detector wrote something new.
 func raceReport() (string, string) {
@@ -102,26 +103,25 @@ func raceReport() (string, string) {
 	}
 	txt := string(all[raceSeen:])
 	raceSeen = int64(len(all))
-	// first two distinct in-repo frames (one per side of the race)
+	// signature: for each side of the first report, the innermost frame outside the Go runtime
 	var fr []string
 	for _, blk := range strings.Split(txt, "\n\n") {
-		if m := raceFrame.FindStringSubmatch(blk); m != nil {
+		for _, m := range raceFrame.FindAllStringSubmatch(blk, -1) {
 			f := m[1]
 			if i := strings.LastIndex(f, "/"); i >= 0 {
 				f = f[i+1:]
 			}
-			dup := false
-			for _, q := range fr {
-				dup = dup || q == f
+			if strings.HasPrefix(f, "runtime.") || strings.HasPrefix(f, "sync.") || strings.HasPrefix(f, "sync/atomic.") {
+				continue
 			}
-			if !dup {
-				fr = append(fr, f)
-			}
+			fr = append(fr, f)
+			break
 		}
 		if len(fr) == 2 {
 			break
 		}
 	}
+	sort.Strings(fr)
 	if len(txt) > 5000 {
 		txt = txt[:5000]
 	}
